@@ -89,7 +89,7 @@ CHECK = {
         {"name": "zonefile", "runner_name": "C24_run", "impl_bin": "impl_c24", "extract": "Extract/ExC24.v", "driver": "run_c24.ml",
          "gen": gen, "nontrivial": nontrivial, "classify": classify, "finding_matches": finding_matches,
          "exhaustive": {"quick": False, "thorough": False},
-         "rule": ("seeded abstract files (records of every supported type incl. CH A, WKS, unknown TYPEnnn and known types in \\# form; $ORIGIN, $TTL, $INCLUDE; "
+         "rule": ("seeded abstract files (records of every supported type incl. CH A, WKS, unknown TYPEnnn and known types in \\# form; $ORIGIN, $TTL, $INCLUDE; [names below the current origin, at 255/254/253 octets, and the origin in another letter case] "
                   "blank and comment lines) rendered by checks/zfgen.py with independent random presentation choices per field: owner absolute / relative / @ / "
                   "omitted, TTL and class presence and order, mnemonics or TYPEnnn/CLASSnnn (mixed case where the tree parses them case-insensitively), blanks/tabs, "
                   "comments, parentheses spanning lines, quoted/unquoted strings, \\c and \\DDD escapes (incl. escaped and quoted line feeds), IPv6 text forms, "
